@@ -404,6 +404,13 @@ def life6(r, facts):
     start = [Loc(ok_edge[1], 0)]
     running = [(loc, e) for loc, v, e in status_stores(f, 'Running')]
     wakers = [loc for loc, s in f.assigns() if [p.get('name') for p in s['lhs']['p'] if p['k'] == 'field'][-1:] == ['waker']]
+    # `set_waker(&mut shared.waker, ctx.waker())` registers the waker just the same (stores it unless the one stored
+    # already wakes the same task)
+    ebw = ExprBuilder(f)
+    for loc, t in f.calls_to('io_uring::op::set_waker'):
+        ap = access_path(ebw.operand(t['args'][0])) if t['args'] else None
+        if ap and ap[1].split('.')[-1] == 'waker':
+            wakers.append(loc)
     r.require(len(running) == 1, 'poll_inner/running-store', 'expected exactly one `status = Running` store, found %d' % len(running), f.where())
     rets = f.returns()
     for loc, e in running:
